@@ -20,7 +20,11 @@ META = dict(
                 "name, the listing of a directory reloaded from the root node, the serialized HAMT DAG (slot paths "
                 "checked against independently computed hash digits) and the root CID (vs a canonical fresh build) are "
                 "recorded and each event is validated as a step of the spec by TLC. Random 120-300 step histories over "
-                "12-16 natural names are validated the same way."),
+                "12-16 natural names are validated the same way. Independence of directory objects: the histories also "
+                "fork (load a 2nd/3rd live directory from the root node -- the very node GetNode returned, or the one "
+                "decoded from the store -- keeping the old object and the node) and switch between the live objects; "
+                "after EVERY call every other live object (Links, Find, type, root CID) and every retained node "
+                "(entries, CID) is re-observed and must equal its own model state (TLC: action property Independence)."),
     level_note=("Trusted: in-memory DAGService (merkledag/test), murmur3 library, the harness projection (real name -> "
                 "model name, CID -> target id, DAG walk). Empty names are outside the domain (a HAMT cannot store them). "
                 "Hash collisions on all 64 bits are not constructed."),
@@ -151,8 +155,12 @@ def validate_runs(ctx, recs, cfg, name, chunk=4000, par=None, timeout=1500):
             nviol += 1
             if nviol <= 3:
                 if True:
-                    brief = {k: bad.get(k) for k in ("ev", "n", "t", "err", "mode", "thr", "maxLinks", "bk", "cidIs",
-                                                     "cidDyn", "walkErr") if k in bad}
+                    brief = {k: bad.get(k) for k in ("ev", "n", "t", "via", "k", "err", "mode", "thr", "maxLinks", "bk",
+                                                     "cidIs", "cidDyn", "walkErr") if k in bad}
+                    if bad.get("others") or bad.get("nodes"):      # the other live objects / retained nodes
+                        brief["links"] = bad.get("links")
+                        brief["others"] = [dict(cid=o.get("cid"), links=o.get("links")) for o in bad.get("others", [])]
+                        brief["nodes"] = bad.get("nodes")
                     ctx.violation("%s: run %s rejected by TraceDirectory/%s at its event %d: %s (invariant=%s)" %
                                   (name, ch[start].get("run"), cfg, h - start, json.dumps(brief), res["violated"]),
                                   dict(cfg=ch[start].get("cfg"), world=ch[start].get("w"), rejected_event=bad,
@@ -230,15 +238,19 @@ def run(ctx):
                        "or not) and Reload of depth D from TLC, crossed with TLC-enumerated configurations (kind x "
                        "estimation mode x thresholds x max-links x width x hash-sharing pattern x stat x CID builder): "
                        "exhaustive for 6 base configurations, sampled for the rest; plus TLC -simulate 60-step histories; "
-                       "plus random 120-step histories over 12 natural names.  non-trivial = run in which the listing "
+                       "plus random 120-step histories over 12 natural names; every alphabet also has Fork(node|store) "
+                       "(<= 3 live directory objects, <= 2 retained root nodes) and Focus(k).  non-trivial = run in which the listing "
                        "changed at least twice and (for HAMT runs) a sub-shard existed at some point")
     ctx.specdir("Directory")
-    ex = cf.ThreadPoolExecutor(max_workers=8)
+    ex = cf.ThreadPoolExecutor(max_workers=10)
     def gen(cfg, **kw):
         time.sleep(0.1)        # vlib names TLC's metadir by millisecond
         return ex.submit(ctx.tlc_gen, "Directory", "GenDirectory.tla", cfg, **kw)
     # ---- M (map + trie: Canonical, Resolvable for all kinds; the switching invariants belong to C16)
     f_mc = ex.submit(mc, ctx, "MCDirectoryMap.cfg", timeout=1500, workers=4 if q else 8)
+    time.sleep(0.1)
+    # ---- M (independence: <= 2 live objects + 1 retained node, action property Independence, ObjsOK)
+    f_mco = ex.submit(mc, ctx, "MCDirectoryObjs.cfg", timeout=1500, workers=2 if q else 4)
     # ---- G: histories x cases (all generated by TLC), harness build concurrently
     f_all = gen("GenDirectoryCases15.cfg", marker="CASE", timeout=600)
     f_ops = gen("GenDirectoryOps15D3.cfg" if q else "GenDirectoryOps15D4.cfg", timeout=1200, workers=2)
@@ -254,8 +266,8 @@ def run(ctx):
         return
     rng = ctx.rng
     behs = []
-    for i, c in enumerate(base):           # exhaustive for the base configurations (thorough: 3 exhaustive, 3 sampled)
-        sel = ops if (q or i % 2 == 0) else rng.sample(ops, min(3000, len(ops)))
+    for i, c in enumerate(base):           # exhaustive for the base configurations (thorough: 2 exhaustive, 4 sampled)
+        sel = ops if (q or i % 3 == 0) else rng.sample(ops, min(5000, len(ops)))
         if q:
             sel = rng.sample(ops, min(len(ops), int(os.environ.get("VERIF_C15_SAMPLE", "450"))))
         behs += [dict(w=c["w"], cfg=c["cfg"], ops=o) for o in sel]
@@ -295,7 +307,22 @@ def run(ctx):
         bad = [dict(e) for e in run]
         bad[i]["async"] = bad[i]["async"][1:]          # EnumLinksAsync lost one entry
         return bad, i
+    def corrupt_other(run):    # a parked directory object lost an entry while another object was edited
+        idx = [i for i, e in enumerate(run) if e.get("ev") in ("AddChild", "RemoveChild") and e.get("err") == ""
+               and any(len(o["links"]) >= 1 for o in e.get("others", []))]
+        if not idx:
+            return None, None
+        i = idx[len(idx) // 2]
+        bad = [dict(e) for e in run]
+        oth = [dict(o) for o in bad[i]["others"]]
+        k = next(k for k, o in enumerate(oth) if len(o["links"]) >= 1)
+        oth[k]["links"] = oth[k]["links"][1:]
+        bad[i]["others"] = oth
+        return bad, i
     f_neg = ex.submit(negative_control, ctx, recs, "TraceDirectoryMap.cfg", "g15", corrupt)
+    f_neg2 = ex.submit(negative_control, ctx, recs + rr, "TraceDirectoryMap.cfg", "g15obj", corrupt_other)
     validate_runs(ctx, recs + rr, "TraceDirectoryMap.cfg", "g15+t15", chunk=5000 if q else 15000)
     f_neg.result()
+    f_neg2.result()
     f_mc.result()
+    f_mco.result()
